@@ -165,7 +165,7 @@ def check_tree(root, toks, lines, end_pos_expected=None, src=None) -> None:
             leaves.append(n)
             return
         if n.value is None:
-            inner.append((n, None, None))
+            inner.append((n, None, len(leaves)))
             return
         i0 = len(leaves)
         for c in n.value:
@@ -197,6 +197,9 @@ def check_tree(root, toks, lines, end_pos_expected=None, src=None) -> None:
         if i0 is None or i1 < i0:
             if node.span[0] != node.span[1]:
                 raise Violation(f"empty-node-span :: node {node.name} matched nothing but has span {node.span}")
+            nxt = i1 if i0 is None else i0          # index of the leaf that follows the empty node
+            if nxt < len(leaves) and node.span[0] != leaves[nxt].span[0]:
+                raise Violation(f"empty-node-position :: node {node.name} matched nothing; its empty span is at {node.span[0]}, the following token starts at {leaves[nxt].span[0]}")
             continue
         want = (leaves[i0].span[0], leaves[i1].span[1])
         if node.span != want:
